@@ -206,7 +206,9 @@ def run():
             for f2 in FORMATS:
                 if f1 not in paths or f2 not in paths:
                     continue
-                argv = [paths[f1], paths[f2], "--no-status", "--no-color"]
+                # under the matching options of the case: every loader has to honour them, or the "same" trees differ in kind
+                from harness import cli as clim
+                argv = [paths[f1], paths[f2], "--no-status", "--no-color"] + clim.opt_args(opts)
                 cli_jobs.append({"argv": argv, "from": paths[f1], "to": paths[f2], "cfg": _cli.base_cfg()})
                 cli_meta.append((i, f1, f2))
     recs = _cli.execute(cli_jobs)
